@@ -462,6 +462,12 @@ func c10Keyless(c *core.Ctx, idx int) {
 }
 
 func c10Case(c *core.Ctx, idx int) {
+	if idx%31 == 7 {
+		// a target that is one of plenc's own types: a Descriptor variable that was walked with and is
+		// then decoded into again, with a descriptor of as many fields in another layout (round 12: k10)
+		c13Foreign(c, idx)
+		return
+	}
 	if idx%17 == 9 && c.Lane != "race" {
 		c10Keyless(c, idx)
 		return
@@ -510,7 +516,7 @@ func init() {
 	core.Register(&core.Prop{
 		ID:        "C10",
 		Technique: "history monitor: seeded Marshal/Unmarshal histories on one instance with re-used, pre-populated and stale-tailed targets compared with a reference decoder implementing the merge rules; fresh decodes re-issued along the history; race lane with 8 goroutines sharing the instance",
-		Rule: "a third of the operations of a history are preceded by two decodes of a damaged copy of the message (cut, bit flipped, continuation bit set) into throw-away targets, whatever they return. every 17th case decodes hand-assembled maps (JSON object codec, string-keyed maps) with an entry that has no key field in second or later position into nil, empty and populated targets; every 13th case decodes hand-assembled messages whose times lack the seconds, the nanoseconds or both parts (field, pointer, nested struct, pointer to struct, existing map key) into fresh and populated targets; every 11th case decodes hand-built maps that name one key 2-4 times into nil, empty and populated targets. Otherwise one history = one fresh Plenc instance, 4 generated types, 50 (thorough 100) operations: marshal a boundary-biased value, decode it into a target that is re-used from an earlier decode / filled with a generated prior / fresh, half of the time after shortening slices in place so their backing arrays keep stale elements; " +
+		Rule: "every 31st case: a plenccodec.Descriptor variable that has been walked with is the target of decoding another stored descriptor (as many fields, other layout), four times in turn; what it renders afterwards is what the codec's own descriptor renders. a third of the operations of a history are preceded by two decodes of a damaged copy of the message (cut, bit flipped, continuation bit set) into throw-away targets, whatever they return. every 17th case decodes hand-assembled maps (JSON object codec, string-keyed maps) with an entry that has no key field in second or later position into nil, empty and populated targets; every 13th case decodes hand-assembled messages whose times lack the seconds, the nanoseconds or both parts (field, pointer, nested struct, pointer to struct, existing map key) into fresh and populated targets; every 11th case decodes hand-built maps that name one key 2-4 times into nil, empty and populated targets. Otherwise one history = one fresh Plenc instance, 4 generated types, 50 (thorough 100) operations: marshal a boundary-biased value, decode it into a target that is re-used from an earlier decode / filled with a generated prior / fresh, half of the time after shortening slices in place so their backing arrays keep stale elements; " +
 			"the target is compared by value with model.Decode(prior, data); a quarter of the decodes are remembered as fresh-target decodes and re-issued later in the history, where they must give the identical result. distinct = (type, configuration, prior-shape, value-shape) hashes",
 		Assume: []string{"model.Decode states the merge rules of the statement; pointer identity and backing-array identity are not part of the property and are not compared"},
 		Plan: func(tier string) []core.Lane {
